@@ -98,3 +98,21 @@ Theorem resume_after_kill_before_first_sidecar_refuted :
   forall snaps, resume_check true 0%N snaps = RefuseNoTxid.
 Proof. exact Examples.resume_after_kill_before_first_sidecar_refuted. Qed.
 Print Assumptions resume_after_kill_before_first_sidecar_refuted.
+
+Theorem failed_apply_stops_poll : forall (rep : replica) (fo : follower),
+  let r := follow_tick rep fo in
+  existsb fails (snd r) = true ->
+  fo_last (fst r) = fo_last fo /\ fo_sidecar (fst r) = fo_sidecar fo /\
+  exists pre f, snd r = (pre ++ f :: nil)%list /\ fails f = true /\
+                forallb (fun g => negb (fails g)) pre = true.
+Proof. exact Proofs.failed_apply_stops_poll. Qed.
+Print Assumptions failed_apply_stops_poll.
+
+Theorem poll_advances_only_over_applied : forall (rep : replica) (s : image) (after : N),
+  let r := apply_new_ltx_files rep (mkSt s nil) after in
+  snd r = false ->
+  forallb (fun g => negb (fails g)) (s_applied (fst (fst r))) = true /\
+  chain_ok after (s_applied (fst (fst r))) = true /\
+  snd (fst r) = chain_end after (s_applied (fst (fst r))).
+Proof. exact Proofs.poll_advances_only_over_applied. Qed.
+Print Assumptions poll_advances_only_over_applied.
